@@ -13,7 +13,7 @@ from .lie_common import lib_call
 
 SHARDS = {"quick": 8, "thorough": 16}
 REQUIRED_REACH = ['Bezier.eval', 'Bezier.deriv', 'derive_bezier7', 'derive_bezier3', 'derive_multirotor']
-RULE = ("curve degree n = 1..10, dimension 1..4, control points log-uniform with mixed signs, durations T in [0.05, 50], times inside "
+RULE = ("curve degree n = 1..10 (all derivative orders) and 14, 18, 24 (orders 0..2), dimension 1..4, control points log-uniform with mixed signs, durations T in [0.05, 50], times inside "
         "[0,T], at 0 and T exactly, and outside (-T..2T); derivative orders 0..n; reference = Bernstein polynomial expanded and "
         "differentiated exactly in fractions.Fraction on the very doubles handed to the library; solvers: random boundary vectors "
         "(position..jerk at both ends), T in [0.2, 20], checked through the shipped *_traj functions at t = 0 and t = T; derivative "
@@ -65,17 +65,18 @@ def run(ctx):
 
 
 def eval_and_deriv(ctx, bz, rng, reps):
-    degs = list(range(1, 11))
+    degs = list(range(1, 11)) + [14, 18, 24]  # high degrees: value and the first two derivatives, one dimension
     for n in degs:
         if (n + ctx.shard // 2) % max(1, ctx.nshards // 2) != 0 and ctx.nshards > 2 and False:
             continue
-        for d in (1, 2, 3, 4):
+        max_m = n if n <= 10 else 2
+        for d in ((1, 2, 3, 4) if n <= 10 else (1,)):
             if (n * 4 + d) % max(1, ctx.nshards // 2) != (ctx.shard // 2):
                 continue
             P = ca.SX.sym("P", d, n + 1)
             T, t = ca.SX.sym("T"), ca.SX.sym("t")
             B = bz.Bezier(P, T)
-            outs = lib_call(ctx, "bezier", "n=%d,d=%d" % (n, d), lambda: [B.eval(t)] + [B.deriv(m).eval(t) for m in range(1, n + 1)], not_implemented_ok=False)
+            outs = lib_call(ctx, "bezier", "n=%d,d=%d" % (n, d), lambda: [B.eval(t)] + [B.deriv(m).eval(t) for m in range(1, max_m + 1)], not_implemented_ok=False)
             if outs is None:
                 continue
             ev = Ev("bz", [P, T, t], outs, probe=False)
@@ -92,7 +93,7 @@ def eval_and_deriv(ctx, bz, rng, reps):
             ctx.check("curve_value_has_curve_dimension", "n=%d,d=%d" % (n, d), shapes_ok, {"shapes": [list(v.shape[1:]) for v in vals], "expected": [d, 1]})
             if not shapes_ok:
                 continue
-            for m in range(0, n + 1):
+            for m in range(0, max_m + 1):
                 err = np.empty(R)
                 for r in range(R):
                     e = 0.0
